@@ -411,7 +411,7 @@ func execC18(s *Script, ch vsimrt.Chooser) *RunResult {
 // C17: repeat the subject script under perturbations
 // ---------------------------------------------------------------------------
 
-var c17Variants = []string{"immediate", "gc", "heap-churn", "new-goroutine", "other-pool-stream", "after-other-calls", "internal-tasks-rescheduled", "interleaved"}
+var c17Variants = []string{"immediate", "gc", "heap-churn", "new-goroutine", "other-pool-stream", "reused-buffers", "after-other-calls", "internal-tasks-rescheduled", "interleaved"}
 
 var sink [][]byte
 
@@ -520,6 +520,31 @@ func execC17(s *Script, ch vsimrt.Chooser) *RunResult {
 	vsimrt.SeedPools(s.PoolSeed^0xABCDEF, (s.PoolFresh+500)%1000)
 	compare("other-pool-stream", runAlone(nil))
 	vsimrt.SeedPools(s.PoolSeed, s.PoolFresh)
+	{
+		// the caller refills and reuses its own input buffers: first the same
+		// calls on other content of the same shape (discarded), then the
+		// subject's content in the very same memory. Equal inputs, equal
+		// outputs - whatever the addresses held before.
+		bufs := map[int]*Input{}
+		runBuf := func(warm bool) []Outcome {
+			var outs []Outcome
+			var local RunResult
+			runTasksSim([]func(){func() {
+				c := newCtx(0, pool, false, s.Budget)
+				c.reuse, c.warm = bufs, warm
+				outs = c.runScript(subject)
+				if !warm {
+					res.addViol(c.viol...)
+				}
+			}}, seqChooser{}, &local)
+			if local.Crash != "" {
+				return crashOf(&local)
+			}
+			return outs
+		}
+		runBuf(true)
+		compare("reused-buffers", runBuf(false))
+	}
 	if len(s.Tasks) > 1 {
 		// the subject again, after the other tasks' calls have run to
 		// completion (a different first call before the second call)
@@ -600,8 +625,9 @@ func genScript(prop string, seed uint64, run int, big bool) (*Script, *rand.Rand
 	case "C17":
 		// subject: a single call, or a whole object history
 		var subject []Op
+		g.focusShare = g.p(0.3)
 		if g.p(0.6) {
-			subject = []Op{g.fnOp()}
+			subject = g.focusOps(g.fnOp().K, 0)
 			if g.p(0.3) {
 				subject = append(subject, g.fnOp())
 			}
@@ -630,10 +656,20 @@ func genScript(prop string, seed uint64, run int, big bool) (*Script, *rand.Rand
 		s.Strategy = []string{"uniform", "adversary", "pct"}[g.n(3)]
 	case "C18":
 		nT := g.rng(2, 4)
-		for i := 0; i < nT; i++ {
-			s.Tasks = append(s.Tasks, g.taskScript(g.n(3), g.rng(1, 4), false))
+		if g.p(0.08) {
+			// more callers than the race detector's four shadow cells can
+			// tell apart: for the outcome oracle (a ring of N shared slots
+			// needs N+1 overlapping calls)
+			nT = g.rng(5, 9)
 		}
-		if g.p(0.5) {
+		for i := 0; i < nT; i++ {
+			if nT > 4 {
+				s.Tasks = append(s.Tasks, g.taskScript(g.n(2), g.rng(1, 2), false))
+			} else {
+				s.Tasks = append(s.Tasks, g.taskScript(g.n(3), g.rng(1, 4), false))
+			}
+		}
+		if g.p(0.5) || nT > 4 {
 			// focus: every task also makes a few calls of ONE kind near its
 			// start, with parameters from the run's shared palette, so that
 			// calls which agree on some arguments and differ in others overlap
